@@ -1090,11 +1090,33 @@ class CircuitDAG(CircuitBase):
                     reg_type=op["q_registers_type"][0],
                 )
             else:
-                gate = ops.name_to_class_map(op["type"])
-                gate = gate()
-                gate.q_registers = op["q_registers"]
-                gate.q_registers_type = op["q_registers_type"]
-                gate.c_registers = op["c_registers"]
+                gate_class = ops.name_to_class_map(op["type"])
+                q_reg = tuple(op["q_registers"])
+                q_type = tuple(op["q_registers_type"])
+                c_reg = tuple(op["c_registers"])
+                if issubclass(gate_class, ops.OneQubitOperationBase):
+                    gate = gate_class(register=q_reg[0], reg_type=q_type[0])
+                elif issubclass(gate_class, ops.ControlledPairOperationBase):
+                    gate = gate_class(
+                        control=q_reg[0],
+                        control_type=q_type[0],
+                        target=q_reg[1],
+                        target_type=q_type[1],
+                    )
+                elif issubclass(gate_class, ops.ClassicalControlledPairOperationBase):
+                    gate = gate_class(
+                        control=q_reg[0],
+                        control_type=q_type[0],
+                        target=q_reg[1],
+                        target_type=q_type[1],
+                        c_register=c_reg[0],
+                    )
+                elif gate_class is ops.MeasurementZ:
+                    gate = gate_class(
+                        register=q_reg[0], reg_type=q_type[0], c_register=c_reg[0]
+                    )
+                else:
+                    raise ValueError(f"Operation type {op['type']} is not supported")
 
             circuit.add(gate)
 
